@@ -119,7 +119,7 @@ def handle : List String → Option String
           match writeDS w.heap x lvl with
           | .error e => pure ("ERR:w:" ++ showErr e)
           | .ok file =>
-            match readDS file with
+            match readDS 100000 100000 file with
             | .error e => pure ("ERR:r:" ++ showErr e)
             | .ok (h', x') => pure ("ok:" ++ renderDS h' x')
         else none
